@@ -405,7 +405,9 @@ module L5 : LM = struct
   let pending_s l = List.map request5_s (l5_pending l)
   let parse_packet = parse_packet5
   let parse_send line = function
-    | "PUB" :: q :: _ :: t :: p :: _ -> R5Publish { q_qos = qos_of q; q_pkid = n "0"; q_topic = n t; q_payload = n p; q_alias = None }
+    | "PUB" :: q :: _ :: t :: p :: rest ->
+        (* SEND PUB <qos> <id> <topic> <payload> [<topic alias|->] *)
+        R5Publish { q_qos = qos_of q; q_pkid = n "0"; q_topic = n t; q_payload = n p; q_alias = (match rest with a :: _ -> optn a | [] -> None) }
     | [ "SUB" ] -> R5Subscribe (n "1")
     | [ "UNSUB" ] -> R5Unsubscribe (n "1")
     | [ "DISCONNECT" ] -> R5Disconnect
